@@ -146,6 +146,19 @@ static void wake_waiters (nsync_dll_list_ to_wake_list, int all_readers) {
 	}
 }
 
+/* Wake *nw, a waiter that is not embedded in a "waiter" struct (it belongs to
+   an nsync_wait_n() call), and that has just been removed from a condition
+   variable's waiter list.  Requires that the condition variable's spinlock is
+   held:  nw->waiting must be cleared before cv_dequeue() can acquire the
+   spinlock, or cv_dequeue() would try to remove *nw from a list it is no
+   longer on.  *nw is not accessed after nw->waiting is cleared, because its
+   owner may then return from nsync_wait_n() and reuse the memory.  */
+static void wake_unembedded_waiter (struct nsync_waiter_s *nw) {
+	struct nsync_semaphore_s_ *sem = nw->sem;
+	ATM_STORE_REL (&nw->waiting, 0); /* release store */
+	nsync_mu_semaphore_v (sem);
+}
+
 /* ------------------------------------------ */
 
 /* Versions of nsync_mu_lock() and nsync_mu_unlock() that take "void *"
@@ -333,8 +346,10 @@ void nsync_cv_signal (nsync_cv *pcv) {
 						ATM_LOAD (&DLL_WAITER (first)->remove_count);
 				} while (!ATM_CAS (&DLL_WAITER (first)->remove_count,
 						   old_value, old_value+1));
+				to_wake_list = nsync_dll_make_last_in_list_ (to_wake_list, first);
+			} else {
+				wake_unembedded_waiter (first_nw);
 			}
-			to_wake_list = nsync_dll_make_last_in_list_ (to_wake_list, first);
 			if ((first_nw->flags & NSYNC_WAITER_FLAG_MUCV) != 0 &&
 			    DLL_WAITER (first)->l_type == nsync_reader_type_) {
 				int woke_writer;
@@ -375,9 +390,11 @@ void nsync_cv_signal (nsync_cv *pcv) {
 								    &DLL_WAITER (p)->remove_count);
 							} while (!ATM_CAS (&DLL_WAITER (p)->remove_count,
 									   old_value, old_value+1));
+							to_wake_list = nsync_dll_make_last_in_list_ (
+								to_wake_list, p);
+						} else {
+							wake_unembedded_waiter (p_nw);
 						}
-						to_wake_list = nsync_dll_make_last_in_list_ (
-							to_wake_list, p);
 					}
 				}
 			}
@@ -420,8 +437,10 @@ void nsync_cv_broadcast (nsync_cv *pcv) {
 					old_value = ATM_LOAD (&DLL_WAITER (p)->remove_count);
 				} while (!ATM_CAS (&DLL_WAITER (p)->remove_count,
 						   old_value, old_value+1));
+				to_wake_list = nsync_dll_make_last_in_list_ (to_wake_list, p);
+			} else {
+				wake_unembedded_waiter (p_nw);
 			}
-			to_wake_list = nsync_dll_make_last_in_list_ (to_wake_list, p);
 		}
 		/* Release spinlock and mark queue empty. */
 		ATM_STORE_REL (&pcv->word, 0); /* release store */
